@@ -18,6 +18,7 @@ Definition spec_layout (name : string) (le is64 : bool) : option layout :=
   else if name =? "RelMips64" then Some (spec_Elf_Rel_mips64 le)
   else if name =? "RelaMips64" then Some (spec_Elf_Rela_mips64 le)
   else if name =? "Hash" then Some (spec_Elf_Hash le)
+  else if name =? "Hash64" then Some (spec_Elf_Hash_w le true)
   else if name =? "GnuHash" then Some (spec_Gnu_Hash le is64)
   else None.
 Definition g_fval (s : sx) : fval :=
@@ -150,5 +151,5 @@ Definition dispatch (req : sx) : sx :=
   else if op =? "stripped_of" then sx_bool (stripped_of_b (gB a1) (gB a2))
   else if op =? "spec_tags" then spec_tags (gbool a1) (gbool a2) (gI a3) (gI a4) (map g_dent (gL a5)) (gB a6)
   else if op =? "gnu_valid" then sx_bool (gnu_valid (gbool a1) (gbool a2) (gB a3) (gI a4))
-  else if op =? "sysv_valid" then sx_bool (sysv_valid (gbool a1) (gB a2) (gI a3))
+  else if op =? "sysv_valid" then sx_bool (sysv_valid (gbool a1) (gbool a4) (gB a2) (gI a3))
   else sx_err "unknown-op".
